@@ -594,13 +594,11 @@ def read_submod_def(line: str):
     name: str = ""
     trailing_line = line[submod_match.end(0) :].split("!")[0]
     trailing_line = trailing_line.strip()
-    parent_match = FRegex.WORD.match(trailing_line)
+    # (ancestor_module[:parent_submodule]) the parent is the last one named
+    parent_match = re.match(r"(\w+)[ ]*(?::[ ]*(\w+))?[ ]*\)?", trailing_line)
     if parent_match:
-        parent_name = parent_match.group(0).lower()
-        if len(trailing_line) > parent_match.end(0) + 1:
-            trailing_line = trailing_line[parent_match.end(0) + 1 :].strip()
-        else:
-            trailing_line = ""
+        parent_name = (parent_match.group(2) or parent_match.group(1)).lower()
+        trailing_line = trailing_line[parent_match.end(0) :].strip()
 
     name_match = FRegex.WORD.search(trailing_line)
     if name_match:
